@@ -41,6 +41,12 @@ def generate(rng, tier):
             f = [float(int(abs(60 * x)) % 256) for x in f]
         elif fd == "float32":
             f = [float(np.float32(x)) for x in f]
+        if c["vdtype"] == "float32" and c["kind"] == "tet" and rng.random() < 0.7:
+            # single-precision vertices, double-precision function with a large constant part: the tetra gradient is built from
+            # differences of f, so only those matter (the triangle formula sum f_i e_i is, in single-precision geometry,
+            # sensitive to the constant part at the level eps32 * max|f| / h -- conditioning, not claimed here)
+            kind, fd = "affine_offset", "float64"
+            f = (p @ np.array(a) / sc + rng.choice([1e4, -3e5])).tolist()
         X = [[rng.uniform(-1, 1) for _ in range(3)] for _ in range(T)]
         c.update({"f": f, "fdtype": fd, "fkind": kind, "a": [x / sc for x in a], "X": X, "tangential": rng.random() < 0.4})
         if c["kind"] == "tet" and rng.random() < 0.4:
@@ -99,6 +105,8 @@ def coq_case(case, out):
         return None
     f32 = case["vdtype"] == "float32" or case["fdtype"] == "float32"
     tol = "0x1.a36e2eb1c432dp-13" if f32 else "0x1.12e0be826d695p-30"
+    if case["fkind"] == "affine_offset":
+        tol = "0x1.a36e2eb1c432dp-14"
     if case["kind"] == "tria":
         return "(TriaD %s %s %s %s %s %s %s %s)" % (tol, core.cv3list(case["v"]), core.ctuples(case["t"]), core.cflist(case["f"]),
                                                    core.cv3list(out["X"]), core.cv3list(out["g"]), core.cflist(out["d"]), core.cflist(out["d2"]))
@@ -115,6 +123,8 @@ def oracle(case, out):
         return V
     f32 = case["vdtype"] == "float32" or case["fdtype"] == "float32"
     rt = 2e-3 if f32 else 1e-8
+    if case["fkind"] == "affine_offset":
+        rt = 1e-4
     p = np.array(case["v"], dtype=float)
     t = np.array(case["t"], dtype=int)
     f = np.array(case["f"], dtype=float)
@@ -128,6 +138,8 @@ def oracle(case, out):
     if np.abs(g - gref).max() > rt * gs:
         bad(pre + "gradient_is_gradient_of_interpolant", f"max diff {np.abs(g - gref).max()} (scale {gs})",
             "oriented" if case["family"].endswith("_oriented") else None)
+    if case["fkind"] == "affine_offset":
+        return V            # the pairing clauses below sum products with |f| ~ 1e4: nothing to learn from them at this magnitude
     if case["fkind"] == "affine" and case["fdtype"] in ("float64",) and not f32:
         a = np.array(case["a"])
         if k == 4:
